@@ -5,6 +5,7 @@ From Coq Require Import List NArith ZArith Arith Bool.
 From AV Require Import Model.C07_Trunc Model.C07_Bloom Model.C07_Stats Model.C07_File Model.C07_Spec.
 From AV Require Import Proofs.C07_Trunc Proofs.C07_Bloom Proofs.C07_MinMax Proofs.C07_Order Proofs.C07_Decimal.
 From AV Require Import Proofs.C07_Utf8 Proofs.C07_Utf8Trunc Proofs.C07_FileM Proofs.C07_BaPath.
+From AV Require Import Gen.Consts Proofs.C07_GenTie.
 Import ListNotations.
 
 (* ================================================================== truncation of byte-string bounds *)
@@ -199,3 +200,9 @@ Example fold_example :
   let f := fold_left insert_hash [12345678901234567890; 42; 18446744073709551615]%N (sbbf_new 8) in
   length (fold_n 2 f) = 2%nat /\ forallb (check_hash (fold_n 2 f)) [12345678901234567890; 42; 18446744073709551615]%N = true.
 Proof. vm_compute. split; reflexivity. Qed.
+
+(* The bloom-filter SALT of the model is the constant of the current source tree (coq/Gen/Consts.v is
+   regenerated from /repo by rs2v on every run). *)
+Theorem bloom_salt_matches_source : List.map Z.of_N SALT = parquet_bloom_filter__SALT.
+Proof. exact tie_bloom_salt. Qed.
+Print Assumptions bloom_salt_matches_source.
